@@ -30,7 +30,7 @@ for o in "${outs[@]}"; do
   id=$(basename "$o"); id=${id%.fifo}; id=${id%.txt}
   if [ "$fault" = skip_output ] && [ $k -eq $nouts ]; then continue; fi
   # one open() per output (a FIFO would see EOF in between otherwise)
-  {
+  emit() {
     echo "BEGIN $id"; for i in "${ins[@]}"; do cat "$i" || exit 4; done; for p in "${params[@]}"; do echo "P $p"; done
     if [ $k -eq 1 ]; then
       log M
@@ -49,7 +49,9 @@ for o in "${outs[@]}"; do
     fi
     pad=$(ctlval pad); if [ -n "$pad" ] && [ "$pad" -gt 0 ]; then head -c "$pad" /dev/zero | tr '\0' 'x'; echo; fi
     echo "END $id"
-  } > "$o" || exit 4
+  }
+  # ctl "append": a command that appends to its output (>>) instead of truncating it
+  if [ -n "$(ctlval append)" ]; then emit >> "$o" || exit 4; else emit > "$o" || exit 4; fi
 done
 x=$(ctlval extra)
 if [ -n "$x" ]; then for f in $x; do f=${f//%k/$sig}; mkdir -p "$(dirname "$f")"; echo "EXTRA $key $f" > "$f"; done; fi
